@@ -611,12 +611,12 @@ def a_states(thorough):
     lay = [
         (["-"] * n, "-", "-", None),
         (["B", "D"] + ["-"] * (n - 2), "-", "-", None),
-        (["-", "P"] + ["-"] * (n - 2), "B", "-", None),
         (["-"] * n, "D", "P", None),
         (["P"] + ["-"] * (n - 1), "-", "-", "file"),
     ]
     if thorough:
         lay += [
+            (["-", "P"] + ["-"] * (n - 2), "B", "-", None),
             (["P"] + ["-"] * (n - 1), "-", "-", None),
             (["-"] * n, "-", "P", None),
             (["-", "-", "P"] + ["-"] * (n - 3), "-", "-", None),
@@ -745,7 +745,7 @@ def b_states(thorough):
                 for home in ("-", "P") if not thorough else ("-", "P", "B"):
                     for cp, ov in ovs:
                         for order in orders:
-                            if not thorough and (cp is not None or ov != OV_NONE) and len(order) < 3:
+                            if not thorough and (cp is not None or ov != OV_NONE) and (len(order) < 3 or home != "-"):
                                 continue
                             st.append({"p": p, "q": q, "r": r, "home": home, "cp": cp, "ov": ov, "order": order})
     return st
@@ -1314,7 +1314,8 @@ def explore(run):
 
     results = parallel_map(lambda ks: run_spec(ks[0], ks[1], T), work)
 
-    agg = {}  # (what, case id) -> [detail, contexts]
+    sampled = {}
+    agg = {}  # (what, group) -> [detail, members, contexts]
     counts = {k: 0 for k in KINDS}
     chosen_hist = {}
     accepted = 0
@@ -1342,8 +1343,9 @@ def explore(run):
             nt = True
         if nt:
             run.nontrivial_case(r["id"])
-        if kind in ("A", "B") and nt and len(run.samples) < 6 and (r["id"].count("P") + r["id"].count("D") + r["id"].count("B")) >= 4:
-            run.sample({"case": r["id"], "spec": spec, "config_chosen_by_model": r.get("chosen"), "violations": [w for w, _ in r["viol"]]})
+        if nt and sampled.get(kind, 0) < (3 if kind == "A" else 1) and (kind != "A" or (len(spec["ov"].get("config", [])) >= 1 and sum(c != "-" for c in spec["levels"]) >= 2)):
+            sampled[kind] = sampled.get(kind, 0) + 1
+            run.sample({"case": r["id"], "spec": spec, "config_chosen_by_model": r.get("chosen"), "violations": [w for w, _ in r["viol"]]}, limit=8)
         viol = list(r["viol"])
         if viol:
             # re-run once before reporting
@@ -1371,8 +1373,6 @@ def explore(run):
     run.extra["pairs_rejected_by_--config (outside the quantifier)"] = rejected
     run.extra["model_choice_histogram_part_A"] = chosen_hist
     run.extra["cases_per_part"] = counts
-    run.sample({"case": c_case_id(c[5]), "spec": c[5]}, limit=8)
-    run.sample({"case": e_case_id(e[3]), "spec": e[3]}, limit=8)
     # vacuity: every kind of configuration source must have won somewhere, accepted pairs must exist
     need = ["None", "d0P", "d0D", "d1P", "d1D", "d2P", "d2D", "homeP", "homeD", "xdgP", "xdgD", "cpfile", "cpdirP", "cpdirD", "missing"]
     missing = [k for k in need if chosen_hist.get(k, 0) < 1]
